@@ -84,6 +84,7 @@ Proof. reflexivity. Qed.
 Lemma const_vstr bw num : 1 <= bw -> 0 <= num < 2 ^ bw ->
   as_wires (OVStr false bw num) None = Some (num, bw).
 Proof.
-  intros Hbw Hn. cbn [as_wires const_of]. unfold convert_vstr. cbn [andb negb].
+  intros Hbw Hn. cbn [as_wires const_of]. unfold convert_vstr.
+  destruct (bw <? 1) eqn:E; [lia|]. cbn [andb negb].
   rewrite Z.shiftr_div_pow2 by lia. rewrite Z.div_small by lia. reflexivity.
 Qed.
